@@ -20,6 +20,8 @@ pub mod c13_pnm;
 pub mod c14_obj;
 pub mod c15_solids;
 pub mod c16_color;
+pub mod c17_spline;
+pub mod c18_angle;
 pub mod mutate;
 
 pub type MonFn = fn(&Cfg, &mut Report);
@@ -39,6 +41,8 @@ pub fn lookup(prop: &str) -> Option<MonFn> {
         "C14" => c14_obj::run,
         "C15" => c15_solids::run,
         "C16" => c16_color::run,
+        "C17" => c17_spline::run,
+        "C18" => c18_angle::run,
         _ => return None,
     })
 }
